@@ -860,6 +860,44 @@ func farmOwner(ns, wf string, n int) int {
 	return int(farm.Fingerprint32([]byte(ns+"_"+wf))%uint32(n)) + 1
 }
 
+// NowMS: the recorder's clock (ms since it was created).
+func (r *Recorder) NowMS() int64 {
+	r.mu.Lock()
+	defer r.mu.Unlock()
+	return r.now()
+}
+
+// SentAfter lists the marks ("<source> <id>") of tasks whose FIRST hand-over by their source happened at or
+// after t, and the set of marks that reached some target stream.
+func (r *Recorder) SentAfter(t int64) (sent []string, delivered map[string]bool) {
+	r.mu.Lock()
+	defer r.mu.Unlock()
+	first := map[string]int64{}
+	delivered = map[string]bool{}
+	for _, e := range r.Events {
+		switch e.Kind {
+		case "SRC_SEND":
+			for _, id := range e.IDs {
+				m := fmt.Sprintf("%s %d", baseOf(e.Stream), id)
+				if _, ok := first[m]; !ok {
+					first[m] = e.VTms
+				}
+			}
+		case "TGT_RECV":
+			for _, m := range e.Marks {
+				delivered[m] = true
+			}
+		}
+	}
+	for m, at := range first {
+		if at >= t {
+			sent = append(sent, m)
+		}
+	}
+	sort.Strings(sent)
+	return
+}
+
 // AllFinalAcked: every source with a script has received an acknowledgement equal to its final watermark.
 func (r *Recorder) AllFinalAcked() bool {
 	r.mu.Lock()
